@@ -170,6 +170,15 @@ func c14Verdict(cs c14Case, tables []c14Table, t *harness.Trace) (fp, what strin
 		}
 		L := []rune(o.Line)
 		if keyName == "C-@" {
+			// ... but what it accepted is: the candidate that was inserted (everything up to the cursor
+			// at the previous wait) is now part of the line and must still be there, as must the text
+			// after the cursor
+			if prev := call.Waits[i-1].Obs; prev != nil && prev.Local == "menu-select" && prev.Line != string(B) {
+				pl := []rune(prev.Line)
+				if prev.Pos <= len(pl) && !(strings.HasPrefix(o.Line, string(pl[:prev.Pos])) && strings.HasSuffix(o.Line, after)) {
+					return "accept-and-menu-complete-corrupts-the-accepted-candidate", fmt.Sprintf("%s: before key #%d (C-@, accept-and-menu-complete) the buffer was %q with the cursor after the inserted candidate (%d); after it the buffer is %q: the accepted candidate is no longer intact", d, i, prev.Line, prev.Pos, o.Line), true
+				}
+			}
 			// accept-and-menu-complete accepts the candidate and starts a NEW completion in
 			// one key: the buffer and cursor at which that one starts are not observable
 			return "", "", nontrivial
